@@ -269,13 +269,15 @@ func DriveMore(w *ev.Writer, o Opts) {
 	if !quick {
 		MaxTree = 1000
 	}
-	n := 0 // running index over all records: sharding and sampling
-	take := func(every int) bool {
-		n++
-		if n%o.Shards != o.Shard {
+	n := 0 // running index over all records: sharding
+	// quick: at most `quota` entries of one dictionary, spread evenly over its keys (total = number of entries)
+	const quota = 48
+	take := func(i, total int) bool {
+		if quick && total > quota && (i*quota)/total == ((i-1)*quota)/total && i != 0 {
 			return false
 		}
-		return !quick || every <= 1 || (n/o.Shards)%every == 0
+		n++
+		return n%o.Shards == o.Shard
 	}
 	for _, bp := range MoreBlocks() {
 		data, err := os.ReadFile(bp)
@@ -297,11 +299,11 @@ func DriveMore(w *ev.Writer, o Opts) {
 			w.Emit(ev.M{"k": "Panic", "where": bp, "panic": fmt.Sprintf("block root has %d references", len(refs))})
 			continue
 		}
-		if take(1) {
+		if take(0, 1) {
 			var bi tlb.BlockInfo
 			decSrcMore(w, "BlockInfo", refs[0], &bi, bname+" info", true)
 		}
-		if take(1) {
+		if take(0, 1) {
 			var vf tlb.ValueFlow
 			decSrcMore(w, "ValueFlow", refs[1], &vf, bname+" value_flow", true)
 		}
@@ -309,11 +311,6 @@ func DriveMore(w *ev.Writer, o Opts) {
 		if st, msg := unmarshal(root, &blk); st != "ok" {
 			w.Emit(ev.M{"k": "Panic", "where": bp, "panic": "block does not decode: " + st + " " + msg})
 			continue
-		}
-		big := len(data) > 400000
-		every := 1
-		if big {
-			every = 20
 		}
 		// ---- InMsgDescr / OutMsgDescr
 		for _, d := range []struct {
@@ -360,7 +357,7 @@ func DriveMore(w *ev.Writer, o Opts) {
 				continue
 			}
 			for i, l := range leaves {
-				if !take(every) {
+				if !take(i, len(leaves)) {
 					continue
 				}
 				where := fmt.Sprintf("%s %s %d key %s..", bname, d.name, i, l.Key[:16])
@@ -383,7 +380,7 @@ func DriveMore(w *ev.Writer, o Opts) {
 					continue
 				}
 				for i, l := range leaves {
-					if !take(every) {
+					if !take(i, len(leaves)) {
 						continue
 					}
 					var x accountLeaf
